@@ -54,10 +54,25 @@ def const_kind(fn, op):
     return None
 
 
-def kind_eq_tests(fn):
-    """[(bb, K, true_succ)] for switches on `self.kind(db) == SyntaxKind::K` (not parent_kind)."""
+def kind_eq_tests(fn, names=None):
+    """[(bb, K, true_succ)] for switches on `self.kind(db) == SyntaxKind::K` and for the arms of a `match self.kind(db)`
+    (not parent_kind)."""
     out = []
     for bb, t in fn.switches():
+        si = fn.switch_info(bb)
+        if names and si and si[0] == "disc" and (si[2] or "").endswith("kind::SyntaxKind"):
+            toks = prov(fn, place_local(si[1]), 8)
+            if "c:kind" in toks and "c:parent_kind" not in toks and "c:get_children" not in toks and "c:parent" not in toks:
+                by = {}
+                for v, s_ in t[2]:
+                    by.setdefault(s_, []).append(v)
+                for s_, vs in by.items():
+                    if s_ == t[3]:
+                        continue
+                    for v in vs:
+                        if isinstance(v, int) and v < len(names):
+                            out.append((bb, names[v], s_))
+            continue
         info, flip = bool_condition(fn, bb)
         if not info or info[0] != "call" or info[1].name() not in ("eq", "ne"):
             continue
@@ -84,7 +99,7 @@ def kind_eq_tests(fn):
 
 
 def run(ctx):
-    F = ctx.load(CRATES)
+    F = ctx.load(CRATES, adts_only=["cairo_lang_syntax"])
 
     # ---------------- R11.1 every child is formatted
     fint = F.find1(FI, name="format_internal")
@@ -188,7 +203,9 @@ def run(ctx):
         raise AnchorError("should_skip_terminal resolves to %d functions" % len(sst))
     sst = sst[0]
     ctx.analysed(sst)
-    tests = kind_eq_tests(sst)
+    SK = F.adts.get("cairo_lang_syntax::node::kind::SyntaxKind")
+    kind_names = [v["name"] for v in SK["variants"]] if SK else None
+    tests = kind_eq_tests(sst, kind_names)
     true_blocks = []
     for i, j, st in sst.stmts():
         if st[0] == "a" and place_local(st[1]) == 0 and isinstance(st[1], int) and st[2][0] == "use":
@@ -205,7 +222,7 @@ def run(ctx):
         ks = set(K for (bb, K, s) in tests if sst.dominates(s, b))
         kinds_used |= ks
         ctx.ob("R11.4", "should_skip_terminal:true@bb-under-kind-test#%d" % (sorted(set(true_blocks)).index(b) + 1),
-               len(ks) == 1 and ks <= set(ALLOWED_SKIP),
+               len(ks) >= 1 and ks <= set(ALLOWED_SKIP),
                "a `true` result is returned only under `kind == %s`" % (sorted(ks) or "NO kind test"), sst.where())
     for K in sorted(set(K for _, K, _ in tests)):
         ctx.ob("R11.4", "skippable-kind:" + K, K in ALLOWED_SKIP,
@@ -257,8 +274,20 @@ def _controls(ctx, F, sst):
                 if st[0] == "a" and st[2][0] == "agg" and st[2][1] == "adt" and st[2][4] == "TerminalEmpty":
                     st[2][4] = "TerminalPub"
                     n += 1
+    SK = F.adts.get("cairo_lang_syntax::node::kind::SyntaxKind")
+    names = [v["name"] for v in SK["variants"]] if SK else []
+    if n == 0 and names:
+        # the kinds are tested by a `match`: retarget the arm of TerminalEmpty to TerminalPub
+        e, pidx = names.index("TerminalEmpty"), names.index("TerminalPub")
+        for bb, t in sst.switches():
+            si = sst.switch_info(bb)
+            if si and si[0] == "disc" and (si[2] or "").endswith("kind::SyntaxKind"):
+                for arm in d["body"]["blocks"][bb]["t"][2]:
+                    if arm[0] == e:
+                        arm[0] = pidx
+                        n += 1
     m = Fn(d, sst.crate)
-    ks = set(K for _, K, _ in kind_eq_tests(m))
+    ks = set(K for _, K, _ in kind_eq_tests(m, names or None))
     ctx.control("a fifth skippable terminal kind", n >= 1 and "TerminalPub" in ks)
 
 
